@@ -11,10 +11,59 @@
 //! leaves the workspace; the canary directory stays byte-identical.
 use crate::rt::*;
 use super::c23::wc_common::*;
-use super::c23::{CONTENTS, PATHS, gen_sparse, gen_tree, pick_s};
+use super::c23::{CONTENTS, PATHS, gen_sparse, gen_tree_over, pick_s};
 use super::c24::expected_leaves;
 
 static PLANTS: std::sync::atomic::AtomicU64 = std::sync::atomic::AtomicU64::new(0);
+
+/// C23's path alphabet plus paths three and four directories deep (all mirrored into the canary,
+/// `CANARY_SKELETON`), so that a symlink can stand in for a *non-final* directory component
+pub const DEEP_PATHS: &[&str] = &["f", "g", "d", "d/x", "d/y", "d/e", "d/e/z", "h", "h/i", "ig", "ig/a", "ig/b", "ig/b/c",
+                                  "d/ig", "d/ig/q", "y", "d/c", "d/e/w/v", "ig/b/k/m", "h/j/n"];
+
+/// Scenario family "a symlink in a non-final directory component" (strengthened after seed C25).
+/// A path `q` of the coming diff that lies at least two directories deep gets one of its *non-final*
+/// directory components replaced by a symlink, and the directories below that component already
+/// exist behind the link (in the canary directory outside the workspace, whose mirror holds every
+/// suffix of every generated path, or in an untracked directory of the workspace), half of the
+/// time with a file standing at the path itself.  `lstat` of the immediate parent then sees a real
+/// directory; only a walk over every component notices the link.
+fn plant_deep_symlink(env: &Env, r: &mut Rng, out: &mut Out, old: &TreeM, new: &TreeM) {
+    let disk = scan(&env.root);
+    let sparse = env.sparse();
+    let cands: Vec<P> = old.keys().chain(new.keys()).filter(|q| q.len() >= 3 && old.get(*q) != new.get(*q) && in_sparse(&sparse, q)
+        && (1..q.len()).all(|n| !matches!(disk.get(&q[..n].to_vec()), Some(Ent::File(..)) | Some(Ent::Link(_))))).cloned()
+        .collect::<std::collections::BTreeSet<_>>().into_iter().collect();
+    if cands.is_empty() { return; }
+    let q = r.pick(&cands).clone();
+    let n = r.range(1, q.len() - 2);
+    let anc = q[..n].to_vec();
+    let up = "../".repeat(n);
+    let target = match r.below(6) {
+        // the canary root mirrors every path suffix, `canary/<anc>` mirrors the whole paths
+        0 | 1 => format!("{up}canary"),
+        2 => format!("{up}canary/{}", anc.join("/")),
+        // an untracked directory of the workspace prepared with the deeper directories
+        3 | 4 => {
+            let mut t = p("zz-t");
+            t.extend(q[n..q.len() - 1].iter().cloned());
+            t.push("keep".into());
+            env.put(&t, &Ent::File(b"BEHIND-LINK keep\n".to_vec(), false));
+            if r.chance(1, 2) {
+                t.pop();
+                t.push(q[q.len() - 1].clone());
+                env.put(&t, &Ent::File(b"BEHIND-LINK\n".to_vec(), false));
+            }
+            format!("{}zz-t", "../".repeat(n - 1))
+        }
+        // the deeper directories are missing behind the link
+        _ => format!("{up}canary/sub"),
+    };
+    env.rm(&anc);
+    env.put(&anc, &Ent::Link(target));
+    PLANTS.fetch_add(1, std::sync::atomic::Ordering::Relaxed);
+    out.tally("plant", "symlink-for-non-final-dir-with-dirs-behind");
+}
 
 fn plant(env: &Env, r: &mut Rng, out: &mut Out, old: &TreeM, new: &TreeM) {
     let mut targets: Vec<P> = new.keys().chain(old.keys()).cloned().collect();
@@ -45,7 +94,7 @@ fn plant(env: &Env, r: &mut Rng, out: &mut Out, old: &TreeM, new: &TreeM) {
             4 if q.len() > 1 => {
                 // a symlink to the canary (or to a workspace directory) where a directory is expected
                 let anc = q[..r.range(1, q.len() - 1)].to_vec();
-                let t = pick_s(r, &["../canary", "../canary/sub", "h", "nowhere"]);
+                let t = pick_s(r, &["../canary", "../canary/sub", "h", "nowhere", "../../canary", "../../canary/d"]);
                 env.rm(&anc);
                 env.put(&anc, &Ent::Link(t.into()));
                 { PLANTS.fetch_add(1, std::sync::atomic::Ordering::Relaxed); } out.tally("plant", "symlink-for-parent-dir");
@@ -88,16 +137,21 @@ pub fn run(cfg: &Cfg, out: &mut Out) {
     for _ in 0..workspaces {
         let mut env = Env::new();
         if r.chance(1, 4) { env.set_sparse(out, &gen_sparse(&mut r)); }
-        let t0 = env.build_tree(&gen_tree(&mut r, false));
+        let t0 = env.build_tree(&gen_tree_over(&mut r, DEEP_PATHS, false));
         let first = env.check_out(out, &t0);
         if first.result.is_err() { ofail(out, "checkout:error", "initial checkout failed".into()); continue; }
         for _ in 0..3 {
             let cf = r.chance(1, 4);
-            let gt = gen_tree(&mut r, cf);
+            let gt = gen_tree_over(&mut r, DEEP_PATHS, cf);
             let tree = env.build_tree(&gt);
             let new_flat = read_tree(&tree);
             let old_flat = read_tree(&env.current_tree());
-            plant(&env, &mut r, out, &old_flat, &new_flat);
+            let deep = r.chance(1, 2);
+            if deep && r.chance(1, 2) { plant_deep_symlink(&env, &mut r, out, &old_flat, &new_flat); }
+            else {
+                plant(&env, &mut r, out, &old_flat, &new_flat);
+                if deep { plant_deep_symlink(&env, &mut r, out, &old_flat, &new_flat); }
+            }
             let res = env.check_out(out, &tree);
             let pre = &res.pre;
             let sparse = &pre.sparse;
@@ -123,6 +177,13 @@ pub fn run(cfg: &Cfg, out: &mut Out) {
             for (q, e) in leaves(&pre.disk) {
                 if !diff.contains(&q) && disk.get(&q) != Some(&e) {
                     bad.get_or_insert(("checkout:untouched-path-changed", format!("{} was {} and is now {:?}; {}", show_p(&q), show_ent(&e), disk.get(&q).map(show_ent), ctx())));
+                }
+            }
+            //     … and nothing appears at a path outside the diff (a file written through a symlink
+            //     to another place of the workspace would)
+            for (q, e) in leaves(disk) {
+                if !diff.contains(&q) && !pre.disk.contains_key(&q) {
+                    bad.get_or_insert(("checkout:file-appeared-outside-the-diff", format!("{} = {} appeared; {}", show_p(&q), show_ent(&e), ctx())));
                 }
             }
             // (2) an entry standing where the new tree adds a path (not tracked there before) survives
@@ -156,7 +217,7 @@ pub fn run(cfg: &Cfg, out: &mut Out) {
                 bad.get_or_insert(("checkout:path-outside-workspace", format!("hook path with a non-normal component: {}; {}", show_seq(&res.trace), ctx())));
             }
             if !env.canary_intact() {
-                bad.get_or_insert(("checkout:symlink-followed-out-of-workspace", format!("canary directory changed: {}; {}", show_disk(&scan(&env.canary)), ctx())));
+                bad.get_or_insert(("checkout:symlink-followed-out-of-workspace", format!("canary directory changed ({}); {}", env.canary_diff(), ctx())));
             }
             match bad { None => out.oracle_ok(), Some((sig, d)) => ofail(out, sig, d) }
             out.tally("skipped", if stats.skipped_files == 0 { "0" } else if stats.skipped_files < 3 { "1-2" } else { "3+" });
